@@ -88,7 +88,7 @@ fn main() {
             }
         };
         if let Some(o) = out_path {
-            let _ = std::fs::write(o, serde_json::to_string(&rep.to_json()).unwrap());
+            let _ = rep.write_files(&o);
         }
         std::process::exit(0);
     }
@@ -106,6 +106,13 @@ fn main() {
             }
         };
         let case = if v.get("case").is_some() { v["case"].clone() } else { v };
+        // a raw libFuzzer artifact wrapped in JSON: re-judged through the byte decoder
+        if let Some(hex) = case["raw_hex"].as_str() {
+            let bytes: Vec<u8> = (0..hex.len() / 2).filter_map(|i| u8::from_str_radix(&hex[2 * i..2 * i + 2], 16).ok()).collect();
+            let rep = vf::fuzzplay::replay_raw(&prop, &bytes);
+            let v = finish(&ctx, p.level, p.rule, p.assumptions, rep, started);
+            std::process::exit(v.exit_code);
+        }
         match guard(|| (p.replay)(&ctx, &case)) {
             Ok(r) => r,
             Err(e) => {
